@@ -543,7 +543,8 @@ def annotate_closures(src, ed, lo, hi, specs, log):
     sig = src.sig
     for k, sp in specs.items():
         if k >= len(cl):
-            raise LiftError(f'{src.rel}: contract names closure {k} but the lifted range has {len(cl)}')
+            log.append(f'R12 closure contract {k} not applied: the lifted range has {len(cl)} closure(s)')
+            continue
         b1, b2, first, last = cl[k]
         ed.replace(sig[b1].start, sig[b2].end, f"|{sp['params']}| -> ({sp['ret']})\n        ensures {sp['ensures'].strip()}\n    {{ ", 'R12')
         ed.insert(sig[last].end, ' }', 'R12')
